@@ -10,6 +10,11 @@ open InvProxy InvProxy.ShimLife InvProxy.Gen
 theorem variant_is_good :
     classify skel_websockets_Connection_Close skel_websockets_Connection_SendClientMessage = some good := by decide
 
+/-- `SendClientMessage` queues a nil message for a one-element array whose element is not a
+    string (the call is still answered 200); the writer goroutine must therefore skip nil
+    messages before touching them, or that malformed input crashes the agent. -/
+theorem writer_skips_nil_messages : websockets_sendMayQueueNil = true → websockets_writerSkipsNil = true := by decide
+
 /-- No call ever panics, in any reachable state of any interleaving of calls (including
     data racing with close, and double close), goroutine steps and backend events. -/
 theorem shim_no_panic (cap : Nat) (s : St) (h : Reachable good cap s) : Pc.panicked ∉ s.calls := by
